@@ -9,6 +9,7 @@ package corerad
 // panic, every gather succeeds, every API answer is 200.
 
 import (
+	"encoding/json"
 	"fmt"
 	"io"
 	"log"
@@ -154,5 +155,7 @@ func c17RaceGen(t *rapid.T) c17RaceCase {
 func TestVerif_C17race(t *testing.T) {
 	k := verifkit.Start(t, "C17")
 	prop := c17RaceProp(k)
+	k.Special = "concurrent-scrapes"
+	k.Regress(t, func(sub string, raw json.RawMessage) error { return verifkit.Decode(raw, prop) })
 	verifkit.Rapid(k, t, "concurrent-scrapes-api-builds(race build)", k.N(60, 3000), c17RaceGen, prop)
 }
